@@ -132,7 +132,7 @@ def run(tier):
     cases = []
     for alg in ("cube4D", "randomQ"):
         if tier == "quick":
-            ns = set(range(1, 41)) | set(int(x) for x in rng.integers(41, 110, size=4))
+            ns = set(range(1, 41)) | set(int(x) for x in rng.integers(41, 110, size=4)) | {128, 200}
         else:
             ns = set(range(1, 273))
         cases += [{"alg": alg, "N": n, "check_double_cover": n <= (40 if tier == "quick" else 120)} for n in ns]
@@ -146,7 +146,7 @@ def run(tier):
         g = sorted(by_n[n], key=lambda c: c["alg"], reverse=bool(n % 2))
         groups.append(g)
     res = merge_results(pmap(_group, groups))
-    rule = ("enumeration of (algorithm, N): cube4D and randomQ, " + ("every N in 1..40 and 4 seeded N in 41..110 each" if tier == "quick"
+    rule = ("enumeration of (algorithm, N): cube4D and randomQ, " + ("every N in 1..40, 4 seeded N in 41..110 and N = 128, 200 each" if tier == "quick"
             else "every N in 1..272") + "; direction grids N=1..3 for the equal-share clause. For N>=4 every cell is compared with a "
             "Monte-Carlo nearest-rotation measure (adaptive number of uniform points so that the smallest cell gets >= 10 000 hits). "
             "Non-trivial = rotation grid with N>=4; distinct = distinct (algorithm, N).")
